@@ -41,7 +41,8 @@ def src_root(body, operand, through_calls=True):
 
 def wire_reads(body, operand):
     """get_u64-like calls the operand derives from (through casts and arithmetic, not through other calls)."""
-    return [s[1] for s in body.sources(operand) if s[0] == "call" and s[1].name in ("get_u64", "get_u128", "get_i64", "get_uint", "get_u64_le")]
+    # a masked / shifted / divided value is bounded by construction (e.g. `len_and_tag & !OP_MASK` is < 2^61)
+    return [s[1] for s in body.sources(operand, stop_bin=("BitAnd", "Shr", "ShrUnchecked", "Rem", "Div")) if s[0] == "call" and s[1].name in ("get_u64", "get_u128", "get_i64", "get_uint", "get_u64_le")]
 
 
 def cmp_bounds(body, block):
@@ -141,12 +142,17 @@ def run(ctx):
                         sw.add(i)
             for x in b.calls:
                 # mem::replace / take on state, inner decoder calls mutate their own state
-                if x.args and src_root(b, x.args[0]) == 1 and x.name in ("replace", "take", "swap", "set", "insert", "push", "reset", "decode", "decode_eof", "consume_bounded", "feed_event", "clear"):
+                if x.args and src_root(b, x.args[0]) == 1 and x.name in ("set", "insert", "push", "reset", "decode", "decode_eof", "consume_bounded", "feed_event"):
                     sw.add(x.block)
                 if x.name in ("consume_bounded", "decode", "decode_eof") and len(x.args) >= 2 and any(src_root(b, a) == 1 for a in x.args if a[0] in ("c", "m")):
                     sw.add(x.block)
             bad = []
+            # a consumption loses bytes only if *no* progress is recorded anywhere on the path of this decode call:
+            # entry ->(no state write)-> consumption ->(no state write)-> Ok(None)
+            free = b.reachable_from([0], avoid=sw)
             for x in cons:
+                if x.block not in free:
+                    continue
                 for nb in nones:
                     if x.block == nb:
                         continue
@@ -157,6 +163,25 @@ def run(ctx):
                     "%d consuming calls, %d Ok(None) returns: every path between them writes the decoder state" % (len(cons), len(nones)),
                     "src.%s (line %d) can be followed by Ok(None) without any write to the decoder state: the bytes are lost when the frame is completed later (path %s)" % (
                         bad[0][0].name, bad[0][0].line, bad[0][2][:8]) if bad else "")
+            # (c) resumability for decoders that `match mem::take(state)`: an arm that returns Ok(None) without having
+            # consumed anything must put back *its own* state, otherwise the frame is re-read in another state
+            for i, j, p, rv, line in b.assigns():
+                d = describe_rvalue(b, rv)
+                if not (p[1] and b.resolve(p).root == 1 and "State::" in d and describe_place(b, p).endswith("state")):
+                    continue
+                g = dom_guards(b, i)
+                arm = [l for dd, l, _ in g if dd.startswith("disc(take(") and dd.endswith("state))")]
+                if not arm:
+                    continue
+                written = d.split("State::", 1)[1].split("(")[0]
+                # is this write followed directly by an Ok(None) return (no further state write)?
+                nxt = [nb for nb in nones if b.dominates(i, nb) and b.path_avoiding(b.succ[i], {nb}, avoid=(sw - {i})) is not None]
+                if not nxt:
+                    continue
+                consumed_before = any(x.block != i and b.dominates(x.block, i) and any(l == arm[0] for dd, l, _ in dom_guards(b, x.block) if dd.startswith("disc(take(")) for x in cons)
+                r.check(written == arm[0] or consumed_before, "%s/%s/resumes-in-own-state" % (tag, arm[0]), b.loc(line),
+                        "arm %s returns Ok(None) after restoring %s" % (arm[0], written),
+                        "arm %s returns Ok(None) without having consumed input but stores state %s: when more bytes arrive the same frame is parsed in the wrong state" % (arm[0], written))
             # inner decoder results
             inner = [x for x in b.calls if x.via_name in ("decode", "decode_eof") and x.args and src_root(b, x.args[0]) == 1 and _suffix_match(x.trait, "codec::decoder::Decoder")]
             for x in inner:
@@ -168,7 +193,9 @@ def run(ctx):
                     st_writes = {i for i, j, p, rv, line in b.assigns() if p[1] and b.resolve(p).root == 1 and "state" in describe_place(b, p)}
                     if not st_writes:
                         continue
+                    taken = [y for y in b.calls if y.name in ("take", "replace") and "core::mem" in y.defpath and y.args and src_root(b, y.args[0]) == 1 and b.dominates(y.block, x.block)]
                     ok, wit = b.must_pass([ve["Err"]], st_writes)
+                    ok = ok or bool(taken)
                     r.check(ok, "%s/inner-error-resets-state" % tag, x.loc(), "after the inner decoder fails the state is rewritten before returning",
                             "the inner decoder's error leaves the outer state unchanged: the next frame is parsed as a body (%s)" % wit)
 
@@ -183,60 +210,65 @@ def run(ctx):
                 if not enc_name.endswith("Encoder") and not enc_name.endswith("Codec"):
                     continue
                 dec_name = enc_name[:-len("Encoder")] + "Decoder" if enc_name.endswith("Encoder") else enc_name
-                ds = [d for d in c.entries(name="decode", trait="tokio_util::codec::decoder::Decoder") if (d.get("self_adt") or "").split("::")[-1] == dec_name and d["nblocks"] > 5]
+                ds = [d for d in c.entries(name="decode", trait="tokio_util::codec::decoder::Decoder") if (d.get("self_adt") or "").split("::")[-1] in (dec_name, "Raw" + dec_name) and d["nblocks"] > 5]
+                if enc_name.startswith("Raw") and not ds:
+                    ds = [d for d in c.entries(name="decode", trait="tokio_util::codec::decoder::Decoder") if (d.get("self_adt") or "").split("::")[-1] == dec_name[3:] and d["nblocks"] > 5]
                 if not ds:
                     continue
-                db = c.body(ds[0])
-                # encoder: first put_u8 of a constant per variant arm
-                etab = {}
-                for x in eb.calls:
-                    if x.name == "put_u8" and len(x.args) > 1:
-                        d = describe_operand(eb, x.args[1])
-                        if not d.isdigit():
+                for dd_ in ds:
+                    db = c.body(dd_)
+                    dec_name = (dd_.get("self_adt") or "").split("::")[-1]
+                    # encoder: first put_u8 of a constant per variant arm
+                    etab = {}
+                    for x in eb.calls:
+                        if x.name == "put_u8" and len(x.args) > 1:
+                            d = describe_operand(eb, x.args[1])
+                            if not d.isdigit():
+                                continue
+                            g = [l for dd, l, _ in dom_guards(eb, x.block) if dd.startswith("disc(") and l not in ("Some", "None", "Ok", "Err")]
+                            if not g:
+                                continue
+                            key = g[0] if len(g) == 1 else "/".join(g)
+                            firsts = etab.setdefault(key, [])
+                            if not any(eb.dominates(y.block, x.block) for y in firsts):
+                                firsts.append(x)
+                    etab = {k: int(describe_operand(eb, v[0].args[1])) for k, v in etab.items() if v}
+                    if len(etab) < 2:
+                        continue
+                    # decoder: value switches on the tag
+                    dtab = {}
+                    handled = set()
+                    unknown_err = False
+                    for blk in range(db.n):
+                        if db.is_cleanup(blk) or db.term(blk)["k"] != "switch":
                             continue
-                        g = [l for dd, l, _ in dom_guards(eb, x.block) if dd.startswith("disc(") and l not in ("Some", "None", "Ok", "Err")]
-                        if not g:
+                        si = db.switch_info(blk)
+                        if si["kind"] not in ("value", "callresult") or len(si["raw_arms"]) < 2:
                             continue
-                        key = g[0] if len(g) == 1 else "/".join(g)
-                        firsts = etab.setdefault(key, [])
-                        if not any(eb.dominates(y.block, x.block) for y in firsts):
-                            firsts.append(x)
-                etab = {k: int(describe_operand(eb, v[0].args[1])) for k, v in etab.items() if v}
-                if len(etab) < 2:
-                    continue
-                # decoder: value switches on the tag
-                dtab = {}
-                handled = set()
-                unknown_err = False
-                for blk in range(db.n):
-                    if db.is_cleanup(blk) or db.term(blk)["k"] != "switch":
+                        sdesc = describe_operand(db, si["operand"]) if "operand" in si else describe_call(db, si["call"])
+                        if parse_cmp(sdesc) or sdesc.startswith("Eq(") or sdesc.startswith("Ne(") or any(v > 255 for v in si["raw_arms"] if isinstance(v, int)):
+                            continue
+                        for v, tb in si["raw_arms"].items():
+                            handled.add(v)
+                        # the otherwise edge must reach an Err
+                        reach = db.reachable_from([si["otherwise"]])
+                        errs = [i for i, j, p, rv, line in db.assigns() if describe_rvalue(db, rv).startswith("Result::Err(") or describe_rvalue(db, rv).startswith("FrameIoError::") or "Err(" in describe_rvalue(db, rv)]
+                        deleg = {x.block for x in db.calls if x.via_name in ("decode", "decode_eof") and _suffix_match(x.trait, "codec::decoder::Decoder")}
+                    unknown_err = unknown_err or bool(reach & set(errs)) or bool(reach & deleg)
+                    if not handled:
                         continue
-                    si = db.switch_info(blk)
-                    if si["kind"] != "value" or len(si["raw_arms"]) < 2:
-                        continue
-                    sdesc = describe_operand(db, si["operand"])
-                    if not ("get_u8(" in sdesc or "index(" in sdesc or "[" in sdesc or "tag" in sdesc or "as_ref(" in sdesc or sdesc.startswith("_")):
-                        continue
-                    for v, tb in si["raw_arms"].items():
-                        handled.add(v)
-                    # the otherwise edge must reach an Err
-                    reach = db.reachable_from([si["otherwise"]])
-                    errs = [i for i, j, p, rv, line in db.assigns() if describe_rvalue(db, rv).startswith("Result::Err(") or describe_rvalue(db, rv).startswith("FrameIoError::") or "Err(" in describe_rvalue(db, rv)]
-                    unknown_err = unknown_err or bool(reach & set(errs))
-                if not handled:
-                    continue
-                pairs += 1
-                ctx.saw(eb)
-                ctx.saw(db)
-                written = set(etab.values())
-                r.check(written <= handled, "%s/%s/written-tags-are-read" % (cn.split("_", 1)[1], enc_name), where(db), "tags written %s are all handled by %s (%s)" % (sorted(written), dec_name, sorted(handled)),
-                        "%s writes tags %s but %s only handles %s" % (enc_name, sorted(written), dec_name, sorted(handled)))
-                r.check(len(set(etab.values())) == len(etab), "%s/%s/tags-distinct" % (cn.split("_", 1)[1], enc_name), where(eb), "each variant has its own tag %s" % etab, "two variants share a tag: %s" % etab)
-                r.check(unknown_err, "%s/%s/unknown-tag-is-error" % (cn.split("_", 1)[1], dec_name), where(db), "an unknown tag reaches an Err result", "an unknown tag does not end in an error")
+                    pairs += 1
+                    ctx.saw(eb)
+                    ctx.saw(db)
+                    written = set(etab.values())
+                    r.check(written <= handled, "%s/%s/written-tags-are-read" % (cn.split("_", 1)[1], enc_name), where(db), "tags written %s are all handled by %s (%s)" % (sorted(written), dec_name, sorted(handled)),
+                            "%s writes tags %s but %s only handles %s" % (enc_name, sorted(written), dec_name, sorted(handled)))
+                    r.check(len(set(etab.values())) == len(etab), "%s/%s/tags-distinct" % (cn.split("_", 1)[1], enc_name), where(eb), "each variant has its own tag %s" % etab, "two variants share a tag: %s" % etab)
+                    r.check(unknown_err, "%s/%s/unknown-tag-is-error" % (cn.split("_", 1)[1], dec_name), where(db), "an unknown tag reaches an Err result", "an unknown tag does not end in an error")
         if pairs < 4:
             raise AnchorMissing("only %d encoder/decoder pairs with tag tables were recognised" % pairs)
 
-    with ctx.rule("C10.R4", "T7", "a 64-bit length read from the wire never enters unchecked arithmetic or a split/advance length without a dominating bound", floor=10) as r:
+    with ctx.rule("C10.R4", "T7", "a 64-bit length read from the wire never enters unchecked arithmetic or a split/advance length without a dominating bound", floor=5) as r:
         n = 0
         bodies = [b for _, b in decs]
         for c, b in decs:
@@ -264,7 +296,9 @@ def run(ctx):
                     ids = set(id(c) for c in reads)
                     site = "%s@%d" % (reads[0].name, sorted(c.line for c in reads)[0] - b.meta["lo"])
                     if op.startswith("Sub"):
-                        if k == 0:
+                        pl = op_place(rv[2])
+                        in_state = pl is not None and b.resolve(pl).root == 1
+                        if k == 0 and not in_state:
                             ok = any(ids <= s_ or ids & s_ for s_ in lo)
                             r.check(ok, "%s/sub/%s" % (tag, site), b.loc(line), "the wire length is only decreased after a lower bound was established",
                                     "`%s - %s` on a length read from the wire with no dominating lower bound: underflow panics (debug) or wraps (release)" % (_short(d), _short(other)))
